@@ -82,6 +82,28 @@ def check_case(pts, t):
         ("curvatureAtTime(%r)" % t, lambda s: s.curvatureAtTime(t)), ("startAngle", lambda s: s.startAngle), ("endAngle", lambda s: s.endAngle)])
 
 
+def check_flat_edges(pts, d):
+    """a line's curvature is negligibly small — also for the lines that come out of flatten(), which remember the curve they came from"""
+    seg = oc.mkseg(pts)
+    if polylen(pts) > 600:
+        return None                    # regular sampling tabulates the arc length in unit steps: long curves cost too much here
+    if polylen(pts) / d > 40:
+        d = polylen(pts) / 40
+    try:
+        edges = seg.flatten(d)
+    except Exception as ex:
+        return "flatten raised %r" % (ex,)
+    for e in edges[:6] + edges[-2:]:
+        if len(e.points) != 2:
+            continue
+        L = math.hypot(e.end.x - e.start.x, e.end.y - e.start.y)
+        for t in (0.0, 0.5, 1.0, 0.3):
+            k = e.curvatureAtTime(t)
+            if not (abs(k) * max(L, 1.0) <= 1e-9):
+                return "an edge of flatten(%r) has curvature %r at t=%r (a line's curvature is negligibly small)" % (d, k, t)
+    return None
+
+
 def search(ctx, budget):
     rng = ctx.rng
     n = 1500 * ctx.scale * budget
@@ -97,6 +119,8 @@ def search(ctx, budget):
         if msg == "skip":
             skipped += 1
             continue
+        if not msg and i % 50 == 7 and order > 2:
+            msg = check_flat_edges(pts, rng.choice([2.0, 8.0, 50.0]))
         key = (tuple(pts), t)
         if key not in seen:
             seen.add(key)
@@ -116,5 +140,8 @@ def classify(v, entry):
 
 def replay(v):
     inp = v["input"]
-    r = check_case([tuple(p) for p in inp["pts"]], inp["t"])
-    return r is not None and r != "skip"
+    pts = [tuple(p) for p in inp["pts"]]
+    r = check_case(pts, inp["t"])
+    if r is not None and r != "skip":
+        return True
+    return len(pts) > 2 and any(check_flat_edges(pts, d) for d in (2.0, 8.0, 50.0))
